@@ -95,6 +95,28 @@ def gen_ops(rng, model, items, route):
   flat = [(s, k, v) for s, its in items for k, v in its]
   touched = set()
   n = rng.choice([0, 1, 1, 2, 2, 3, 4, 6])
+  # the same key name in two sections (a species label under [EAM-Embed] and [EAM-Density], a note named
+  # like an option, ...) edited in ONE invocation: items are identified by (section, key), not by key alone
+  bykey = {}
+  for s, k, v in flat:
+    if not s.startswith("Table-Form"):
+      bykey.setdefault(norm(k), []).append((s, k, v))
+  shared = [v for v in bykey.values() if len(set(x[0] for x in v)) >= 2]
+  if shared and rng.random() < 0.5:
+    (s1, k1, v1), (s2, k2, v2) = rng.sample(rng.choice(shared), 2)
+    ops.append({"op": "override", "section": s1, "key": ws_variant(rng, k1), "value": new_value(rng, s1, k1, model, v1)})
+    if rng.random() < 0.6:
+      ops.append({"op": "override", "section": s2, "key": ws_variant(rng, k2), "value": new_value(rng, s2, k2, model, v2)})
+    else:
+      ops.append({"op": "remove", "section": s2, "key": ws_variant(rng, k2)})
+    touched.update([(s1, norm(k1)), (s2, norm(k2))])
+  elif flat and rng.random() < 0.2:
+    # an orphan-section item named like an existing key, added and removed/overridden elsewhere in one go
+    s1, k1, v1 = rng.choice([x for x in flat if not x[0].startswith("Table-Form")] or flat)
+    if not s1.startswith("Table-Form"):
+      ops.append({"op": "override", "section": s1, "key": k1, "value": new_value(rng, s1, k1, model, v1)})
+      ops.append({"op": "add", "section": "Notes", "key": norm(k1), "value": "same key name in another section"})
+      touched.update([(s1, norm(k1)), ("Notes", norm(k1))])
   for _ in range(n):
     c = rng.random()
     if c < 0.45 and flat:
